@@ -720,6 +720,30 @@ pub fn suite_enum(out: &mut Out, _tier: &str, _rng: &mut Rng) {
             out.emit(json!({"op": "enum_map", "field": "AttributeType", "lo": lo, "hi": hi, "f6": f6}));
         }
     }
+    // the same sweeps inside a whole control message WITH the AVPs that typically accompany the swept one
+    {
+        let mk = |names: &[&str], rng: &mut Rng| -> (Vec<u8>, usize) {
+            let mut b = Vec::new();
+            for nme in names {
+                let ki = KINDS.iter().position(|k| k.1 == *nme).unwrap();
+                b.extend(enc_avp(&gen_avp_kind(rng, ki, 6)));
+            }
+            (b, names.len())
+        };
+        let plans: Vec<(&str, u16, Vec<&str>)> = vec![
+            ("ProxyAuthenType", 12, vec!["ProxyAuthenName", "ProxyAuthenChallenge", "ProxyAuthenId", "ProxyAuthenResponse", "TxConnectSpeed", "FramingType"]),
+            ("ErrorType", 4, vec!["AssignedTunnelId"]),
+            ("ErrorType", 14, vec!["AssignedSessionId", "Q931CauseCode"]),
+            ("MessageType", 0, vec!["ProtocolVersion", "HostName", "FramingCapabilities", "AssignedTunnelId", "AssignedSessionId", "ResultCode", "CallSerialNumber"]),
+            ("AttributeType", 6, vec!["HostName", "RandomVector"]),
+        ];
+        for (f, ctx, names) in plans {
+            let (after, n_after) = mk(&names, _rng);
+            for (lo, hi) in [(0u32, 255u32), (256, 65535)] {
+                out.emit(json!({"op": "enum_map", "field": f, "lo": lo, "hi": hi, "ctx": ctx, "after": bytes_json(&after), "n_after": n_after}));
+            }
+        }
+    }
     // the same sweeps with the AVP inside a whole control message (Message::try_read_validate): as the first AVP
     // (message types), behind the message types that carry it (Result Code in StopCCN / CDN, Proxy Authen Type
     // in ICCN), and every attribute type behind a Hello
@@ -1170,6 +1194,30 @@ pub fn suite_flags(out: &mut Out, tier: &str, rng: &mut Rng) {
     for _ in 0..counts(tier, 300, 10000) {
         let (b, _) = noncanonical_input(rng);
         out.emit(json!({"op": "decode_opts", "in": bytes_json(&b)}));
+    }
+    // every combination of T/L/S/O/P (version 2, no reserved bits, and version 3) with 1, 300 and 1000 octets
+    // FOLLOWING the message in the reader: whatever a disabled check lets through must still stay inside the message
+    for bits in 0..32u16 {
+        let base = (bits & 1) << 8 | ((bits >> 1) & 1) << 9 | ((bits >> 2) & 1) << 12 | ((bits >> 3) & 1) << 14 | ((bits >> 4) & 1) << 15;
+        for ver in [2u16, 3] {
+            for extra in [1usize, 300, 1000] {
+                let mut b = tail_for(base | ver << 4, rng);
+                b.extend(rng.bytes(extra));
+                out.emit(json!({"op": "decode_opts", "in": bytes_json(&b)}));
+            }
+        }
+    }
+    // attribute numbers that later protocol versions assign (40..=110), behind a Message Type, under every version
+    // nibble that a disabled version check lets through
+    for t in 40u16..=110 {
+        for ver in [2u8, 3, 0, 15] {
+            let mut body = enc_avp(&gen_message_type(rng));
+            let p = rng.rbytes(0, 6);
+            body.extend(enc_record((t % 2) as u8, 6 + p.len(), 0, t, &p));
+            let mut w = enc_control_raw(flag_word(true, true, true, false, false, 2), None, [1, 2, 3, 4], &body);
+            w[1] = (w[1] & 0x0f) | (ver << 4);
+            out.emit(json!({"op": "decode_opts", "in": bytes_json(&w)}));
+        }
     }
     // every option set (and the default entry) on whole messages of many kinds, each under several flag words:
     // as is, version 3, a reserved bit, the P bit, the O bit -- an option must not reach beyond its own bits
@@ -1828,6 +1876,35 @@ pub fn suite_history(out: &mut Out, tier: &str, rng: &mut Rng) {
             let clean = gen_control(rng, 3, 8);
             calls.push(json!({"op": "decode", "in": bytes_json(&enc_control(&clean)), "opts": [true, true, true], "entry": "validate", "rdr": "slice", "id": 0}));
         }
+        // session flows: control messages of every type composed as the RFC prescribes (every optional AVP present,
+        // Sequencing Required included) and data messages of every header shape, all under the SAME tunnel / session
+        // ids -- a codec that remembers sessions answers the data messages differently before and after
+        for flow in 0..3u16 {
+            let (tid, sid) = (100 + flow, 200 + flow);
+            for (mt, names) in [("IncomingCallRequest", vec!["AssignedSessionId", "CallSerialNumber"]),
+                                ("IncomingCallConnected", vec!["TxConnectSpeed", "FramingType", "RxConnectSpeed", "SequencingRequired"]),
+                                ("OutgoingCallConnected", vec!["TxConnectSpeed", "FramingType", "SequencingRequired"]),
+                                ("SetLinkInfo", vec!["Accm"]), ("CallDisconnectNotify", vec!["ResultCode", "AssignedSessionId"]),
+                                ("StopControlConnectionNotification", vec!["AssignedTunnelId", "ResultCode"])] {
+                let mut avps = vec![json!({"k": "MessageType", "f": [mt]})];
+                for nme in names {
+                    let ki = KINDS.iter().position(|k| k.1 == nme).unwrap();
+                    avps.push(gen_avp_kind(rng, ki, 6));
+                }
+                let m = json!({"k": "Control", "length": 0, "tunnel_id": tid, "session_id": sid, "ns": flow, "nr": flow, "avps": avps});
+                calls.push(json!({"op": "decode", "in": bytes_json(&enc_control(&m)), "opts": [true, true, true], "entry": "validate", "rdr": "slice", "id": 0}));
+                for shape in 0..4usize {
+                    let data = rng.rbytes(1, 9);
+                    let has_len = shape & 1 == 1;
+                    let has_s = shape & 2 == 2;
+                    let total = 2 + if has_len { 2 } else { 0 } + 4 + if has_s { 4 } else { 0 } + data.len();
+                    let d = json!({"k": "Data", "prio": false, "length": if has_len { json!([total]) } else { json!([]) }, "tunnel_id": tid, "session_id": sid,
+                                   "ns_nr": if has_s { json!([[1, 2]]) } else { json!([]) }, "offset": [], "data": bytes_json(&data)});
+                    calls.push(json!({"op": "decode", "in": bytes_json(&enc_data_from_value(&d, rng)), "opts": [true, true, true], "entry": "validate", "rdr": "slice", "id": 0}));
+                    calls.push(json!({"op": "roundtrip", "kind": "msg", "v": d, "id": 0}));
+                }
+            }
+        }
         // texts that differ only in case / normalisation form, in every text kind
         for k in ["VendorName", "CalledNumber", "CallingNumber", "SubAddress", "ResultCode", "Q931CauseCode"] {
             for (x, y) in [("Acme Networks", "ACME NETWORKS"), ("abc", "ABC"), ("e\u{301}", "\u{e9}"), ("a b", "a\u{a0}b"), ("x\r\n", "x\n\n")] {
@@ -2445,6 +2522,38 @@ pub fn suite_rfc_messages(out: &mut Out, tier: &str, rng: &mut Rng) {
             }
         }
     }
+    // data messages carrying IPv4 / IPv6 packets behind a PPP header (with and without ff 03) whose own length field
+    // is smaller than, equal to and larger than the octets present
+    for v6 in [false, true] {
+        for prefix in [false, true] {
+            for delta in [-9i64, -1, 0, 1, 20] {
+                for shape in 0..4usize {
+                    let body_len = 28usize + (shape * 7);
+                    let mut ip: Vec<u8> = if v6 {
+                        let mut h = vec![0x60u8, 0, 0, 0, 0, 0, 17, 64];
+                        h.extend(rng.bytes(32));
+                        h
+                    } else {
+                        let mut h = vec![0x45u8, 0, 0, 0, 0x12, 0x34, 0x40, 0, 64, 17, 0, 0];
+                        h.extend(rng.bytes(8));
+                        h
+                    };
+                    ip.extend(rng.bytes(body_len));
+                    let declared = if v6 { (ip.len() as i64 - 40 + delta).max(0) as u16 } else { (ip.len() as i64 + delta).max(0) as u16 };
+                    if v6 { ip[4..6].copy_from_slice(&declared.to_be_bytes()); } else { ip[2..4].copy_from_slice(&declared.to_be_bytes()); }
+                    let mut payload: Vec<u8> = if prefix { vec![0xff, 0x03] } else { vec![] };
+                    payload.extend_from_slice(if v6 { &[0x00, 0x57] } else { &[0x00, 0x21] });
+                    payload.extend_from_slice(&ip);
+                    let has_len = shape & 1 == 1;
+                    let has_s = shape & 2 == 2;
+                    let total = 2 + if has_len { 2 } else { 0 } + 4 + if has_s { 4 } else { 0 } + payload.len();
+                    let d = json!({"k": "Data", "prio": false, "length": if has_len { json!([total]) } else { json!([]) }, "tunnel_id": rng.u16(), "session_id": rng.u16(),
+                                   "ns_nr": if has_s { json!([[rng.u16(), rng.u16()]]) } else { json!([]) }, "offset": [], "data": bytes_json(&payload)});
+                    out.emit(json!({"op": "roundtrip", "kind": "msg", "v": d}));
+                }
+            }
+        }
+    }
     // every message type with ALL the AVPs it may carry, in three random orders
     for (mt, mand, opt) in comp.iter() {
         for _ in 0..3 {
@@ -2720,5 +2829,33 @@ pub fn suite_bits(out: &mut Out, tier: &str, rng: &mut Rng) {
     for _ in 0..counts(tier, 150, 5000) {
         let b = random_message_input_pub(rng);
         out.emit(json!({"op": "decode_bits", "in": bytes_json(&b)}));
+    }
+    // messages of every kind and with every sort of defect: one AVP of each kind, each attribute number that later
+    // protocol versions assign (40..=110), vendor-specific / hidden / truncated records, data messages of every shape
+    let ctl = |body: &[u8]| enc_control_raw(flag_word(true, true, true, false, false, 2), None, [1, 2, 3, 4], body);
+    for ki in 0..KINDS.len() {
+        let mut body = enc_avp(&gen_message_type(rng));
+        body.extend(enc_avp(&gen_avp_kind(rng, ki, 8)));
+        out.emit(json!({"op": "decode_bits", "in": bytes_json(&ctl(&body))}));
+    }
+    for t in 40u16..=110 {
+        let mut body = enc_avp(&gen_message_type(rng));
+        let p = rng.rbytes(0, 6);
+        body.extend(enc_record((t % 2) as u8, 6 + p.len(), 0, t, &p));
+        out.emit(json!({"op": "decode_bits", "in": bytes_json(&ctl(&body))}));
+    }
+    for k in 0..12usize {
+        let mut body = enc_avp(&gen_message_type(rng));
+        match k % 4 {
+            0 => body.extend(enc_record(1, 8, 9, 7, &[65, 66])),
+            1 => body.extend(enc_avp(&gen_hidden(rng, 16))),
+            2 => body.extend(enc_record(1, 7, 0, 9, &[1])),
+            _ => body.extend(enc_record(1, 40, 0, 7, &[65])),
+        }
+        out.emit(json!({"op": "decode_bits", "in": bytes_json(&ctl(&body))}));
+    }
+    for _ in 0..counts(tier, 16, 300) {
+        let d = gen_data(rng, 16);
+        out.emit(json!({"op": "decode_bits", "in": bytes_json(&enc_data_from_value(&d, rng))}));
     }
 }
